@@ -61,10 +61,13 @@ class Check:
         self.assumptions = []
         self.rule = ""
         self.exhaustive = False
-        self.work = os.path.join(VERIF, "work", pid)
+        # VERIF_SCRATCH_TAG (mutation campaigns, background sweeps): keep work, replays and evidence of
+        # such a run apart from those of the registered check
+        self.tag = os.environ.get("VERIF_SCRATCH_TAG", "")
+        self.work = os.path.join(VERIF, "work", pid + ("_" + self.tag if self.tag else ""))
         shutil.rmtree(self.work, ignore_errors=True)
         os.makedirs(self.work, exist_ok=True)
-        self.replays = os.path.join(VERIF, "replays", pid)
+        self.replays = os.path.join(VERIF, "replays", pid + ("_" + self.tag if self.tag else ""))
         os.makedirs(self.replays, exist_ok=True)
         self.known = load_known(pid)
 
@@ -139,11 +142,12 @@ class Check:
             "coverage": cov, "assumptions": self.assumptions, "wall_s": round(wall, 2),
             "violations": len(self.violations),
         }
-        os.makedirs(os.path.join(VERIF, "evidence"), exist_ok=True)
-        tmp = os.path.join(VERIF, "evidence", self.pid + ".json.tmp")
+        evdir = os.path.join(VERIF, "evidence") if not self.tag else os.path.join(VERIF, "work", "evidence_" + self.tag)
+        os.makedirs(evdir, exist_ok=True)
+        tmp = os.path.join(evdir, self.pid + ".json.tmp")
         with open(tmp, "w") as f:
             json.dump(ev, f, indent=1, default=str)
-        os.replace(tmp, os.path.join(VERIF, "evidence", self.pid + ".json"))
+        os.replace(tmp, os.path.join(evdir, self.pid + ".json"))
         printed = set()
         for full, (k, text) in sorted(self.known_hit.items()):
             if k["key"] in printed:
